@@ -22,7 +22,7 @@ RULE = (
     "carries at least one non-dimension coordinate"
 )
 SPACE = {
-    "quick": "all subsets of <= 3 of 9 pool coordinates x {with, without} dimension coordinates x 10 (op, shift) paths x carry/none/relabelled x keep_coords T/F",
+    "quick": "all subsets of <= 3 of 9 pool coordinates x {all, none, only centre, all but centre} dimension coordinates x 10 (op, shift) paths x carry/none/relabelled x keep_coords T/F",
     "thorough": "subsets of <= 4",
 }
 BOUNDS = {"quick": {"k": 3}, "thorough": {"k": 4}}
@@ -44,6 +44,11 @@ def build(pool, dimcoords):
         ds["v_" + d] = ((d,), np.zeros(l))
     if dimcoords:
         for d, l in LEN.items():
+            # dimcoords: True = every dimension has a coordinate; "center" = only xc and t; "faces" = all but xc
+            if dimcoords == "center" and d not in ("xc", "t"):
+                continue
+            if dimcoords == "faces" and d == "xc":
+                continue
             ds = ds.assign_coords({d: (d, np.arange(l) * 1.0 + {"xc": 0.5, "xg": 0, "xo": 0, "xi": 1, "t": 100}[d], {"units": "u_" + d})})
     for c in pool:
         if c == "s0":
@@ -146,14 +151,14 @@ def run_shard(shard, tier, seed, rec):
 
     ps = pools(tier)
     for pool in ps[shard[0]: shard[1]]:
-        for dimcoords in (True, False):
+        for dimcoords in (True, False, "center", "faces"):
             ds = build(pool, dimcoords)
             with warnings.catch_warnings():
                 warnings.simplefilter("ignore")
                 g = Grid(ds, coords={"X": POSDIM}, periodic=False, autoparse_metadata=False)
             for ci in range(len(CASES)):
                 for carry in ("own", "none", "other"):
-                    if carry == "other" and not dimcoords:
+                    if carry == "other" and dimcoords is not True:
                         continue
                     for kc in (True, False):
                         run_case(rec, pool, dimcoords, ci, carry, kc, seed, g, ds)
